@@ -40,6 +40,16 @@ impl<'a> Src<'a> {
         b
     }
 
+    /// Fold an externally computed hash into the case key.
+    pub fn mix_external(&mut self, v: u64) {
+        self.mix(v);
+    }
+
+    /// The whole underlying case.
+    pub fn data(&self) -> &'a [u8] {
+        self.data
+    }
+
     /// One raw byte (hashed into the key).
     pub fn byte(&mut self) -> u8 {
         let b = self.raw();
